@@ -310,6 +310,17 @@ func DecodeReply(status int, hdr http.Header, body []byte) *Reply {
 	ct := hdr.Get("Content-Type")
 	low := bytes.ToLower(trim)
 	if bytes.Contains(low, []byte("<form")) && (bytes.HasPrefix(low, []byte("<!doctype html")) || bytes.Contains(low, []byte("<html"))) {
+		// a browser renders (and auto-submits) the page only when it is served as HTML: no Content-Type at all (it sniffs,
+		// and this body starts like HTML) or an HTML media type; text/plain, application/xml, JSON, octet-stream … are shown or downloaded
+		if mt, _, _ := strings.Cut(strings.ToLower(ct), ";"); strings.TrimSpace(mt) != "" {
+			switch strings.TrimSpace(mt) {
+			case "text/html", "application/xhtml+xml":
+			default:
+				r.Kind = RKOther
+				r.DecodeErr = "auto-submit page served as " + strings.TrimSpace(mt) + ": a browser does not render it"
+				return r
+			}
+		}
 		fv, err := parseForms(body)
 		if err != nil {
 			r.Kind = RKOther
